@@ -75,6 +75,8 @@ pub enum Op {
     Sched(Dl, usize, Expr, Option<usize>, Option<i64>),
     Cancel(usize),
     Panic(i64),
+    /// build, run and drop a nested simulation (threads, models) inside the handler
+    Nested(usize, usize),
 }
 #[derive(Clone, Debug)]
 pub struct MSpec {
@@ -228,6 +230,10 @@ impl<'a> P<'a> {
             }
             "can" => Op::Cancel(self.us()),
             "pan" => Op::Panic(self.int()),
+            "nst" => {
+                let t = self.us();
+                Op::Nested(t, self.us())
+            }
             t => panic!("op {}", t),
         }
     }
@@ -401,6 +407,44 @@ impl nexosim::time::Deadline for Gated {
 }
 
 pub static SM_DROPS: std::sync::atomic::AtomicUsize = std::sync::atomic::AtomicUsize::new(0);
+// nested simulations (Op::Nested): models made, models dropped, simulations run, handler runs
+pub static NM_STATS: [std::sync::atomic::AtomicUsize; 4] = [
+    std::sync::atomic::AtomicUsize::new(0),
+    std::sync::atomic::AtomicUsize::new(0),
+    std::sync::atomic::AtomicUsize::new(0),
+    std::sync::atomic::AtomicUsize::new(0),
+];
+pub struct NM;
+impl NM {
+    async fn ping(&mut self) {
+        NM_STATS[3].fetch_add(1, std::sync::atomic::Ordering::SeqCst);
+    }
+}
+impl Model for NM {}
+impl Drop for NM {
+    fn drop(&mut self) {
+        NM_STATS[1].fetch_add(1, std::sync::atomic::Ordering::SeqCst);
+    }
+}
+fn nested(threads: usize, k: usize) {
+    use std::sync::atomic::Ordering::SeqCst;
+    let mut init = SimInit::with_num_threads(threads);
+    let mut first = None;
+    for i in 0..k {
+        let mb = Mailbox::new();
+        if first.is_none() {
+            first = Some(mb.address());
+        }
+        NM_STATS[0].fetch_add(1, SeqCst);
+        init = init.add_model(NM, mb, format!("nested{}", i));
+    }
+    NM_STATS[2].fetch_add(1, SeqCst);
+    if let Ok((mut simu, _sched)) = init.init(MonotonicTime::EPOCH) {
+        if let Some(a) = first {
+            let _ = simu.process_event(NM::ping, (), &a);
+        }
+    }
+}
 impl Drop for SM {
     fn drop(&mut self) {
         SM_DROPS.fetch_add(1, std::sync::atomic::Ordering::SeqCst);
@@ -525,6 +569,7 @@ impl SM {
                 Op::Panic(c) => {
                     std::panic::panic_any(PanicCode(*c));
                 }
+                Op::Nested(t, k) => nested(*t, *k),
             }
         }
     }
@@ -774,6 +819,9 @@ fn drain(log: &Log) -> String {
 
 pub fn run(case: &Case) -> String {
     SM_DROPS.store(0, std::sync::atomic::Ordering::SeqCst);
+    for c in NM_STATS.iter() {
+        c.store(0, std::sync::atomic::Ordering::SeqCst);
+    }
     let log: Log = Arc::new(Mutex::new(Vec::new()));
     let n = case.models.len();
     let mut mboxes: Vec<Option<Mailbox<SM>>> = case
@@ -1081,5 +1129,9 @@ pub fn run(case: &Case) -> String {
     let drops = SM_DROPS.load(std::sync::atomic::Ordering::SeqCst);
     let handler_log_after_drop = drain(&log);
     drop(orphans);
-    format!("{} || D:{}:[{}]", out.join(" | "), drops, handler_log_after_drop)
+    let nm: Vec<String> = NM_STATS
+        .iter()
+        .map(|c| c.load(std::sync::atomic::Ordering::SeqCst).to_string())
+        .collect();
+    format!("{} || D:{}:[{}] N:{}", out.join(" | "), drops, handler_log_after_drop, nm.join(":"))
 }
